@@ -13,3 +13,11 @@ func f(xs []string, n int) int {
 	_ = q.B{}
 	return len(xs) + q.F(n)
 }
+
+func g(w q.W, i q.I, err error) string {
+	_, _ = w.Write(nil)
+	w.IM()
+	i.IM()
+	q.Gen[int]{}.GM()
+	return err.Error()
+}
